@@ -91,7 +91,8 @@ def evidence_info(prop, tier):
       'assumptions': [
           'separation guard: closed-form support height of sphere/box/capsule '
           '(plane pairs) or bounding spheres (geom pairs) from link poses of the '
-          'collision-free twin, margin 2*|v|*dt + 1 mm before and after the step',
+          'collision-free twin, margin 1.25*|v|*dt + |g|*dt^2 + 0.3 mm before and '
+          'after the step',
           'limit guard: every limited coordinate of both twins inside its range '
           'by 1e-3 (float64) / 1e-2 (float32) + 6*|qd_stack|*dt before and '
           'after the step (the positional pipeline clips an intermediate angle)',
@@ -578,41 +579,62 @@ def _run_twin(g, ctx, x64):
                   else 'guard_stop')
     oracle = 'limits.state'
   else:
-    # speeds and poses of the collision-free twin decide the guard
+    # speeds and poses of the collision-free twin decide the guard. The
+    # positional pipeline evaluates contacts on its predicted pose (one free
+    # integration ahead), so the gap must exceed the distance a geom point can
+    # travel in one step: sp*dt (sp is an upper bound of the point speed) plus
+    # the gravity term; factor 1.25 and 0.3 mm are the safety margin. (The first
+    # version used 2*sp*dt + 1 mm, which hid seeded change c06-04 whose effect
+    # lives at gaps between 1 and 2 times |v|*dt.)
+    GUARD_K, GUARD_ABS = 1.25, 3e-4
+    gacc = float(np.linalg.norm(np.asarray(sysA.gravity)))
     xpos, xrot, xv, xw = Bt[2], Bt[3], Bt[4], Bt[5]
     xposA, xrotA, xvA, xwA = A[2], A[3], A[4], A[5]
-    for b in range(nl):
-      n = 0
-      for t in range(T + 1):
-        sep = True
-        for (P_, R_, V_, W_) in ((xpos, xrot, xv, xw), (xposA, xrotA, xvA, xwA)):
-          if not sep:
-            break
-          if mode == 'sep_plane':
-            for (li, gt, sz, gp, gq, ct, ca) in geoms:
-              cl = float(wl.plane_clearance(gt, sz, gp, gq, P_[b, t, li],
-                                            R_[b, t, li]))
+    def separated(b, t, with_speed):
+      """Conservative separation of every candidate pair in state t of lane b
+      (both twins). with_speed: the state a step starts from (the gap must
+      exceed what a geom point can travel in one step); otherwise the state a
+      step ends in (still separated, absolute margin only)."""
+      for (P_, R_, V_, W_) in ((xpos, xrot, xv, xw), (xposA, xrotA, xvA, xwA)):
+        if mode == 'sep_plane':
+          for (li, gt, sz, gp, gq, ct, ca) in geoms:
+            cl = float(wl.plane_clearance(gt, sz, gp, gq, P_[b, t, li],
+                                          R_[b, t, li]))
+            if not np.isfinite(cl):
+              return False
+            m_ = GUARD_ABS
+            if with_speed:
               reach = np.linalg.norm(gp) + wl.bounding_radius(gt, sz)
-              sp = np.linalg.norm(V_[b, t, li]) + np.linalg.norm(W_[b, t, li]) * reach
-              if not cl > 2 * sp * dt + 1e-3:
-                sep = False
-                break
-              if cl < 0.005:
-                ctx.probe('gap_lt_5mm')
-          else:
-            ca_ = P_[b, t, 0] + wl.quat_rot_np(R_[b, t, 0], geoms[0][3])
-            cb_ = P_[b, t, 1] + wl.quat_rot_np(R_[b, t, 1], geoms[1][3])
-            dist = np.linalg.norm(ca_ - cb_) - ra - rb
+              sp = np.linalg.norm(V_[b, t, li]) + \
+                  np.linalg.norm(W_[b, t, li]) * reach
+              m_ += GUARD_K * sp * dt + gacc * dt * dt
+            if not cl > m_:
+              return False
+            if cl < 0.005:
+              ctx.probe('gap_lt_5mm')
+        else:
+          ca_ = P_[b, t, 0] + wl.quat_rot_np(R_[b, t, 0], geoms[0][3])
+          cb_ = P_[b, t, 1] + wl.quat_rot_np(R_[b, t, 1], geoms[1][3])
+          dist = np.linalg.norm(ca_ - cb_) - ra - rb
+          m_ = GUARD_ABS
+          if with_speed:
             sp = (np.linalg.norm(V_[b, t, 0]) + np.linalg.norm(V_[b, t, 1]) +
                   np.linalg.norm(W_[b, t, 0]) * (ra + np.linalg.norm(geoms[0][3])) +
                   np.linalg.norm(W_[b, t, 1]) * (rb + np.linalg.norm(geoms[1][3])))
-            if not dist > 2 * sp * dt + 1e-3:
-              sep = False
-            elif dist < 0.005:
-              ctx.probe('gap_lt_5mm')
-        if not sep:
+            m_ += GUARD_K * sp * dt + 2 * gacc * dt * dt
+          if not dist > m_:
+            return False
+          if dist < 0.005:
+            ctx.probe('gap_lt_5mm')
+      return True
+    for b in range(nl):
+      n = 0
+      for t in range(T):
+        # step t -> t+1 is compared iff it starts separated with the speed
+        # margin and ends still separated
+        if not (separated(b, t, True) and separated(b, t + 1, False)):
           break
-        n = t
+        n = t + 1
       ok[b] = n
       if n < T:
         ctx.probe('guard_stop')
